@@ -171,12 +171,13 @@ def check_parse(ctx, backend, mode, s):
                 ui = ""
         variants |= recompose_variants(u.scheme, ui + hs, u.raw_path, u.raw_query_string, u.raw_fragment, None)
     ctx.check(s_out in variants, "str(url) is not the re-composition of the raw accessors", observed=s_out, expected=sorted(variants), entry=mode)
-    if mode == "auto" and u.raw_authority:
+    if mode == "auto":
         ui = ""
         if u.raw_user is not None or u.raw_password is not None:
             ui = (u.raw_user or "") + (":" + u.raw_password if u.raw_password is not None else "")
             ui = ui + "@" if ui else ""
         exp_auth = ui + (u.host_subcomponent or "") + (":%d" % port if port is not None else "")
+        # (also when raw_authority is empty: user/password/host/port accessors must then be empty as well)
         ctx.check(u.raw_authority == exp_auth, "raw_authority is not [user[:password]@]host_subcomponent[:port]", observed=u.raw_authority, expected=exp_auth, entry=mode)
 
 
